@@ -31,10 +31,11 @@ const (
 	aHugeSmall
 	aDupOfInput
 	aDupInBatch
+	aInscribed
 	nAnswers
 )
 
-var answerNames = []string{"ErrNoUTXO", "wrapped ErrNoUTXO", "other error", "empty batch", "[small]", "[small,small]", "[exactly deficit]", "[deficit-1]", "[huge]", "[31-byte txid]", "[utxo with SequenceNumber=7]", "[non-P2PKH utxo]", "[huge,small]", "[utxo repeating the outpoint of the first input]", "[small, the same outpoint again]"}
+var answerNames = []string{"ErrNoUTXO", "wrapped ErrNoUTXO", "other error", "empty batch", "[small]", "[small,small]", "[exactly deficit]", "[deficit-1]", "[huge]", "[31-byte txid]", "[utxo with SequenceNumber=7]", "[non-P2PKH utxo]", "[huge,small]", "[utxo repeating the outpoint of the first input]", "[small, the same outpoint again]", "[UTXO locked by a P2PKH inscription script]"}
 
 var errSupplier = errors.New("supplier failed")
 
@@ -62,6 +63,9 @@ func c12Start(k int) *txref.Tx {
 		t.Outs = []txref.Out{std, {Sats: 0, Script: append([]byte{0x00, 0x6a, 0x4c, 100}, fill(100, 5)...)}}
 	case 4: // already funded
 		t.Ins = []txref.In{p2pkhIn(0, 1_000_000)}
+		t.Outs = []txref.Out{std}
+	case 11: // a prior unsigned input, the transaction read back from its extended serialisation (empty, non-nil scripts)
+		t.Ins = []txref.In{p2pkhIn(0, 700), p2pkhIn(1, 1)}
 		t.Outs = []txref.Out{std}
 	case 5: // nothing at all
 	case 10: // a transaction with a lock time
@@ -100,6 +104,11 @@ func c12Run(c c12Case) c12Result {
 	add := func(f rep.Finding) { res.fs = append(res.fs, f) }
 	ref := c12Start(c.Start)
 	tx := toLib(ref)
+	if c.Start == 11 {
+		if back, err := bt.NewTxFromBytes(tx.ExtendedBytes()); err == nil {
+			tx = back
+		}
+	}
 	outsBefore := append([]byte(nil), tx.Bytes()...)
 	fq := c.Q.lib()
 	step := 0
@@ -192,6 +201,14 @@ func c12Run(c c12Case) c12Result {
 			i2.TxID, i2.Vout = append([]byte(nil), i1.TxID...), i1.Vout
 			ref.Ins = append(ref.Ins, i1, i2)
 			return []*bt.UTXO{u1, u2}, nil
+		case aInscribed:
+			// a 1-sat-ordinal style UTXO: P2PKH followed by an inscription envelope (supported by the estimator)
+			u, in := mk(300)
+			sc := c04InscLock(fill(20, byte(utxoN)), 0)
+			u.LockingScript = libScript(sc)
+			in.PrevScript = sc
+			ref.Ins = append(ref.Ins, in)
+			return []*bt.UTXO{u}, nil
 		case aBadTxID:
 			u, _ := mk(5000)
 			u.TxID = u.TxID[:31]
@@ -269,6 +286,16 @@ func c12Run(c c12Case) c12Result {
 		}
 	}
 	if err == nil {
+		// funded: asking again changes nothing and the supplier is left alone ("called only while a deficit remains")
+		snap := append([]byte(nil), tx.ExtendedBytes()...)
+		called := 0
+		err2 := tx.Fund(context.Background(), fq, func(ctx context.Context, deficit uint64) ([]*bt.UTXO, error) {
+			called++
+			return nil, bt.ErrNoUTXO
+		})
+		if called != 0 || err2 != nil || !bytes.Equal(snap, tx.ExtendedBytes()) {
+			add(rep.F("funded-but-asks-again", fmt.Sprintf("Fund on the transaction it had just funded: supplier called %d times, err=%v, transaction changed=%v", called, err2, !bytes.Equal(snap, tx.ExtendedBytes()))))
+		}
 		_, std, data := refSizes(refEstimated(after.Tx))
 		need := new(big.Int).Add(sumOut(after.Tx), refFee(std, data, c.Q))
 		if sumIn(after.Tx).Cmp(need) < 0 {
@@ -282,7 +309,7 @@ func c12Check(c c12Case) []rep.Finding { return c12Run(c).fs }
 
 func init() {
 	p := register(&Prop{ID: "C12", Level: "model_checking",
-		Rule: "explicit-state exploration of the funding loop through the real Tx.Fund with the supplier as the nondeterministic environment: every supplier history of length <=4 (quick) / <=5 (thorough; one less from the three start states with 250/251/252 prior inputs, where new inputs cross the 252|253 count boundary) over 15 answers {ErrNoUTXO, wrapped ErrNoUTXO, other error, empty batch, [small], [small,small], [exactly the deficit], [deficit-1], [huge], [huge,small], [31-byte txid], [UTXO with a sequence field], [non-P2PKH UTXO], [UTXO repeating the outpoint of the transaction's first input], [small, the same outpoint again]} (exhaustion after the history ends) x 11 starting transactions (no inputs, with a lock time, prior unsigned/signed input, data output, already funded, empty, 250/251/252 prior inputs, two data outputs) x 5 fee quotes (incl. unequal data rate and a rate that is not an exact binary fraction); a reference loop with a big-integer fee model runs in lockstep inside the supplier: a state is (start, quote, inputs so far, current deficit), a transition is one supplier call. Oracle: supplier called only with a deficit and with exactly the current one, success iff covered, inputs = previous ++ batches field for field with final sequence, exhaustion -> ErrInsufficientFunds, supplier error propagated, outputs untouched",
+		Rule: "explicit-state exploration of the funding loop through the real Tx.Fund with the supplier as the nondeterministic environment: every supplier history of length <=4 (quick) / <=5 (thorough; one less from the three start states with 250/251/252 prior inputs, where new inputs cross the 252|253 count boundary) over 16 answers {ErrNoUTXO, wrapped ErrNoUTXO, other error, empty batch, [small], [small,small], [exactly the deficit], [deficit-1], [huge], [huge,small], [31-byte txid], [UTXO with a sequence field], [non-P2PKH UTXO], [UTXO repeating the outpoint of the transaction's first input], [small, the same outpoint again], [UTXO locked by a P2PKH inscription]} (exhaustion after the history ends) x 12 starting transactions (unsigned prior inputs read back from the extended serialisation, no inputs, with a lock time, prior unsigned/signed input, data output, already funded, empty, 250/251/252 prior inputs, two data outputs) x 5 fee quotes (incl. unequal data rate and a rate that is not an exact binary fraction); a reference loop with a big-integer fee model runs in lockstep inside the supplier: a state is (start, quote, inputs so far, current deficit), a transition is one supplier call. Oracle: supplier called only with a deficit and with exactly the current one, success iff covered, inputs = previous ++ batches field for field with final sequence, exhaustion -> ErrInsufficientFunds, supplier error propagated, outputs untouched; a funded transaction handed to Fund again is left alone without a supplier call",
 	})
 	sp := NewSpace(p, "histories", c12Check)
 	p.Run = func(r *rep.Run, thorough bool) {
@@ -310,7 +337,7 @@ func init() {
 			}
 			return res.fs
 		}}).Each(r, func(yield func(c12Case)) {
-			for st := 0; st < 11; st++ {
+			for st := 0; st < 12; st++ {
 				for _, q := range quotes {
 					var rec func(h []int)
 					rec = func(h []int) {
